@@ -455,3 +455,13 @@ Proof.
   intros E W Hi. destruct (write_revision sd idx q o sd' E W) as [(st & -> & _)|[Hr _]]; [left; eexists; reflexivity|].
   right. exists idx. split; assumption.
 Qed.
+
+(* C09 at the API: what KV.Range / KV.IterateRange hand to the client for an accepted request to an existing table IS the
+   state machine's answer (one message / all messages), untouched by the layers in between *)
+Theorem api_range_answer sd idx t r lin f st : sget sd t = Some st ->
+  range_status (range_feat true t r f) = SOk ->
+  spec_step sd idx (QRange t r lin f) = (sd, PRange (s_lookup (content st) r)) /\
+  spec_step sd idx (QIterate t r lin f) = (sd, PIter (s_iterator_lookup (content st) r)).
+Proof.
+  intros Hs Hok. unfold spec_step. cbn [api_step]. unfold known. rewrite Hs, Hok. split; reflexivity.
+Qed.
